@@ -851,6 +851,17 @@ def _threshold_alternatives(v, guards=(), where=None):
         yield v, guards
 
 
+def _grid_by_condition(G):
+    """linspace(*((lo, hi) if c else (mu0, mu1)), n): both ends chosen by the same condition is the grid chosen by that condition"""
+    g = G.single_atom() if isinstance(G, Form) else None
+    if g and g[0] == "fn" and g[1] == "linspace" and len(g[2]) >= 2 and G == Form.atom(g):
+        e0, e1 = (x.single_atom() if isinstance(x, Form) else None for x in g[2][:2])
+        if e0 and e1 and all(e[0] == "fn" and e[1] == "ifexp" and len(e[2]) == 3 and not e[3] for e in (e0, e1)) and vkey(e0[2][0]) == vkey(e1[2][0]) \
+                and g[2][0] == Form.atom(e0) and g[2][1] == Form.atom(e1):
+            return mk_fn("ifexp", [e0[2][0]] + [mk_fn("linspace", [e0[2][k_], e1[2][k_]] + list(g[2][2:]), list(g[3])) for k_ in (1, 2)])
+    return G
+
+
 def _strictly_between(v, guards, mu0, mu1, depth=0, devs=None):
     """("grid", ok, note) when v is an element of a grid between the levels: ok says whether it provably avoids both levels.
     None when v is not such an element.  A grid between two points that are themselves strictly inside is strictly inside; the
@@ -859,6 +870,9 @@ def _strictly_between(v, guards, mu0, mu1, depth=0, devs=None):
     if not (a and a[0] == "idx" and isinstance(a[1], Form) and v == Form.atom(a)) or depth > 3:
         return None
     G, i = a[1], a[2]
+    g = G.single_atom()
+    G_as_used = G
+    G = _grid_by_condition(G)
     g = G.single_atom()
     if g and ((g[0] == "fn" and g[1] == "ifexp" and len(g[2]) == 3) or g[0] == "phi") and G == Form.atom(g) and devs is not None:
         # the grid itself is chosen between alternatives (between the bulks of the populations when such an interval exists, else between
@@ -887,7 +901,7 @@ def _strictly_between(v, guards, mu0, mu1, depth=0, devs=None):
                 counts.append(ga[2][2])
         if not isinstance(i, Form):
             return ("grid", False, "")
-        ns = [mk_fn("len", [G]), Form.atom(("attr", G, "size")), mk_fn("size", [G])] + (counts[:1] if counts and all(c == counts[0] for c in counts) else [])
+        ns = [mk_fn("len", [G]), Form.atom(("attr", G, "size")), mk_fn("size", [G])] + ([mk_fn("len", [G_as_used]), Form.atom(("attr", G_as_used, "size")), mk_fn("size", [G_as_used])] if G_as_used is not G else []) + (counts[:1] if counts and all(c == counts[0] for c in counts) else [])
         zero, one = Form.num(0), Form.num(1)
         gds = [c for c in guards if isinstance(c, Form)]
         lower = any(c == mk_fn("gt", [i, zero]) or c == mk_fn("ge", [i, one]) or c == mk_fn("ne", [i, zero]) for c in gds)
@@ -940,7 +954,7 @@ def _grid_moved_into_eye(v, mu0, mu1, s0, s1):
     a = v.single_atom() if isinstance(v, Form) else None
     if not (a and a[0] == "idx" and isinstance(a[1], Form)):
         return False
-    g = a[1].single_atom()
+    g = _grid_by_condition(a[1]).single_atom()
     alts = [a[1]]
     if g and g[0] == "fn" and g[1] == "ifexp" and len(g[2]) == 3:
         alts = list(g[2][1:])
